@@ -33,6 +33,9 @@ func (c *Ctx) effectiveTop(f *ssa.Function, depth int) *ssa.Function {
 	if depth > 3 || f.Signature.Recv() != nil || f.Object() == nil || f.Object().Exported() || namedAnchors[c.Key(f)] {
 		return f
 	}
+	if len(c.valueUses(f)) > 0 {
+		return f
+	}
 	var owner *ssa.Function
 	for _, ci := range c.callersOf(f) {
 		t := c.effectiveTop(top(ci.Parent()), depth+1)
@@ -315,6 +318,51 @@ func (c *Ctx) callersOf(fn *ssa.Function) []ssa.CallInstruction {
 		}
 	}
 	return out
+}
+
+// valueUses: instructions that use fn as a value (stored, passed, converted) rather than calling it; a function
+// that escapes as a value can be called from anywhere, so who-may-call rules cannot be decided by its static callers.
+func (c *Ctx) valueUses(fn *ssa.Function) []ssa.Instruction {
+	var out []ssa.Instruction
+	fns := append([]*ssa.Function(nil), c.Funcs...)
+	for _, sp := range c.SSAPkg {
+		// package-level variable initialisers live in the synthetic package initialiser
+		if ini := sp.Func("init"); ini != nil {
+			fns = append(fns, ini)
+		}
+	}
+	for _, f := range fns {
+		for _, b := range f.Blocks {
+			for _, in := range b.Instrs {
+				var ops []*ssa.Value
+				ops = in.Operands(ops)
+				for i, op := range ops {
+					if *op == nil {
+						continue
+					}
+					g, ok := (*op).(*ssa.Function)
+					if !ok || !(g == fn || g.Origin() == fn) {
+						continue
+					}
+					if ci, isCall := in.(ssa.CallInstruction); isCall && i == 0 && ci.Common().Value == *op {
+						continue // the callee position
+					}
+					out = append(out, in)
+				}
+			}
+		}
+	}
+	return out
+}
+
+// noValueUse fails the who-may-call rule when the restricted function escapes as a value.
+func (r *Rep) noValueUse(c *Ctx, rule string, fn *ssa.Function) {
+	for _, in := range c.valueUses(fn) {
+		if c.FnInControl(in.Parent()) {
+			continue
+		}
+		r.Undecided(rule, rule+":escapes-as-value:"+c.Key(fn)+"@"+c.Key(top(in.Parent())), in.Pos(), c.Key(fn)+" is used as a value in "+c.Key(top(in.Parent()))+": its callers can no longer be enumerated, the who-may-call rule is undecided")
+	}
 }
 
 // condHas: among conds, one with the given polarity whose value satisfies pred.
